@@ -44,6 +44,7 @@ pub fn large_vol(geom_idx: usize, l: LargeCfg) -> VolCfg {
         gen: if by_gen { Some(GenGeom { rsvd: 32, fatsz: if geom_idx % GEOMS.len() == 4 { 262_144 } else { 0 }, ..Default::default() }) } else { None },
         large: Some(l),
         short_io: 0,
+        populate: None,
     }
 }
 
